@@ -275,7 +275,8 @@ def check_profiles(chk, tr):
 
 # ------------------------------------------------------------------ grid level
 def check_grids(chk, tr):
-    grids = corpus.get(tier=chk.tier)
+    # the dct-interpolated member belongs to the quick tier of this property (finding F30: with that method the scalars came from another interpolant)
+    grids = corpus.get(tier=chk.tier, extra_cfgs=[] if chk.tier == "thorough" else [dict(corpus.CONFIGS["lsn_dct"], must_build=True)])
     n = 0
     worst = {}
     for g in grids:
